@@ -24,13 +24,13 @@ func init() {
 			c := ci.(*SCase)
 			var o core.Outcome
 			if len(c.Changes) == 1 {
-				opts := canon.Options{}
+				opts := canon.Options{KeepParens: true}
 				if strings.HasPrefix(c.Tag, "F4-") {
 					opts.MaskImports = true // whether the matched import stays is C11's subject
 				}
 				o = judgeModelBoth(env, &MCase{Change: c.Changes[0], File: c.File, Tag: c.Tag}, opts, 1).Out
 			} else {
-				o = judgeSeqBoth(env, c, canon.Options{})
+				o = judgeSeqBoth(env, c, canon.Options{KeepParens: true})
 			}
 			if o.Violation != "" {
 				o.FindingKey = "C02:" + o.FindingKey + "/" + strings.SplitN(c.Tag, "/", 2)[0]
